@@ -142,3 +142,65 @@ PROPS["C08"] = dict(
     ],
     uncovered=["DataSetReader option plumbing (flexible_decoding)"],
 )
+
+# ----------------------------------------------------------------------- C18
+_FR = "core/src/value/fragments.rs"
+_single = ["c18::c18_frag_n%d_fs%d" % t for t in
+           [(1, 0), (2, 0), (3, 0), (4, 0), (5, 0), (1, 1), (3, 1), (4, 2), (5, 2), (6, 2), (5, 3), (6, 4), (7, 4), (0, 2), (0, 0)]]
+PROPS["C18"] = dict(
+    level="proof",
+    units=[
+        V("C18.encode_default", "c18_encode_default.vrs",
+          "default PixelDataWriter::encode (multi-frame driver used by transcoding), encode_frame as abstract callee: one "
+          "fragment and one basic-offset-table entry per frame, entry i = sum over earlier frames of (8 + even-padded "
+          "fragment length), first entry 0; no 32-bit overflow when the encapsulated data fits 4 GiB",
+          expected_verified=7,
+          witness=dict(cmd="cp /repo/Cargo.lock /verif/witness/Cargo.lock && CARGO_TARGET_DIR=/verif/build/witness "
+                           "cargo run --offline -q --manifest-path /verif/witness/Cargo.toml --bin c18_encode 2>&1 | tail -3")),
+        K("C18.fragments_new", "ext", _single,
+          "Fragments::new + From<Vec<Fragments>> (single frame): every fragment even and of equal size, fragments "
+          "concatenate to the data followed by < 1 fragment of zero padding, offset table [0]",
+          fns=[(_FR, "new", r"impl\s+Fragments"), (_FR, "from", r"impl\s+From<Vec<Fragments>>")],
+          complete=False, bound="data length <= 7 and fragment size <= 4, both concrete per harness (15 combinations); byte contents symbolic",
+          timeout=300),
+        K("C18.offset_table_multi", "ext", ["c18::c18_bot_2_4", "c18::c18_bot_3_1"],
+          "From<Vec<Fragments>> (multi-frame, one fragment per frame) + Fragments::len: offset table = prefix sums of "
+          "(8 + fragment length), first entry 0, one entry per frame",
+          fns=[(_FR, "len", r"impl\s+Fragments"), (_FR, "from", r"impl\s+From<Vec<Fragments>>")],
+          complete=False, bound="2 frames of concrete lengths (2,4), (3,1); contents symbolic", timeout=300),
+        K("C18.offset_table_multi3", "ext", ["c18::c18_bot_4_6_2", "c18::c18_bot_1_1_1"],
+          "same with three frames", complete=False, bound="3 frames of concrete lengths (4,6,2), (1,1,1)", tier="thorough",
+          timeout=600),
+    ],
+    assumptions=[
+        "encode_frame represented by its contract only (appends at most frame_len_bound bytes to the vector it is given)",
+        "precondition: dst and offset_table are empty on entry (both call sites in pixeldata/src/transcode.rs pass new vectors; not verified)",
+        "precondition: frames * (max frame length + 9) <= 2^32-1 (the 32-bit basic offset table cannot express more)",
+        "&dyn PixelDataObject rewritten to &impl PixelDataObject in the verified text",
+    ],
+    uncovered=["Fragments::new for data longer than the bound (the f32 ceil for |data| > 2^24 is outside any bound CBMC reaches)",
+               "PixelDataObject::frame_pixel_data", "ENCAPSULATED_PIXEL_DATA_VALUE_TOTAL_LENGTH in transcode.rs (inline in a whole-object function)",
+               "pixeldata/src/encapsulation.rs helpers"],
+)
+
+# ----------------------------------------------------------------------- C15
+_DD = "dictionary-std/src/data_element.rs"
+PROPS["C15"] = dict(
+    level="proof",
+    units=[
+        V("C15.lookup", "c15_dictionary.vrs",
+          "StandardDataDictionary::indexed_tag == the precedence of the statement (exact, repeating group, repeating "
+          "element, private creator, group length, nothing) for every tag, over the registry view (by_tag, ggxx, eexx); "
+          "StandardDataDictionaryRegistry::index files each entry under TagRange::inner and registers repeating ranges, "
+          "preserving the registry invariant; TagRange::inner",
+          expected_verified=8),
+    ],
+    assumptions=[
+        "HashMap/HashSet get/insert/contains behave as Map/Set (std collections assumed)",
+        "registry() returns the registry built by init_dictionary: `for entry in ENTRIES { d.index(entry) }` (3-line loop and the "
+        "once_cell lazy static are not verified; the invariant is established by new() and preserved by index)",
+        "Option::or_else contract assumed (calls the closure iff None); closure postconditions are ghost annotations inserted by a declared rewrite",
+        "(lo..=hi).contains(&x) rewritten to a verified helper with the same meaning",
+    ],
+    uncovered=["content of the 5000 generated ENTRIES vs. the published PS3.6 table", "keyword lookup (by_name), tag constants, SOP class / UID dictionaries"],
+)
